@@ -153,8 +153,19 @@ class Inter:
         # contradictory facts about the same atom
         seen = {}
         for (a, o, _b, _l) in conds:
-            if a in seen and seen[a] != o and o in (True, False) and seen[a] in (True, False):
-                return None
+            if a in seen and seen[a] != o:
+                o1 = seen[a]
+                if o in (True, False) and o1 in (True, False):
+                    return None
+                if isinstance(o, tuple) and isinstance(o1, tuple):
+                    # two decisions about the same discriminant / integer
+                    for x, y in ((o, o1), (o1, o)):
+                        if x[0] in ("variant", "eq") and y[0] == x[0] and x[1] != y[1]:
+                            return None
+                        if x[0] == "variant" and y[0] == "other" and x[1] in y[1]:
+                            return None
+                        if x[0] == "eq" and y[0] == "notin" and x[1] in y[1]:
+                            return None
             seen.setdefault(a, o)
         ptr_out = {sub(k): sub(v) for k, v in p.ptr_out.items()}
         q = P.Path(p.fn, conds, events, sub(p.ret), p.exit, ptr_out, p.blocks, items)
